@@ -1,8 +1,11 @@
 #!/bin/sh
-# tools/try_patch.sh <patch> <Cxx> [tier] [notest]: apply a patch to /repo, run the repo tests and one check, undo the patch.
+# tools/try_patch.sh <patch> <Cxx> [tier] [notest]
+# Applies a patch to a scratch git worktree of /repo (never to /repo itself), optionally runs the repository's tests there,
+# runs one check against it (LUNA_VERIF_REPO), prints the verdict lines, removes the worktree.
 P=$(realpath "$1"); ID=$2; TIER=${3:-quick}
-git -C /repo diff --quiet || { echo "/repo working tree not clean"; exit 3; }
-git -C /repo apply "$P" || exit 3
-if [ "$4" != "notest" ]; then (cd /repo && /venv/bin/python -m pytest -q -p no:cacheprovider tests 2>&1 | grep -E "passed|failed" | tail -1); fi
-(cd /verif && ./check $ID --tier $TIER > /tmp/try_patch.out 2>&1; echo "check rc=$?"; cut -c1-400 /tmp/try_patch.out | tail -8)
-git -C /repo checkout -- . 
+WT=/tmp/trypatch_$$
+git -C /repo worktree add -q --detach "$WT" HEAD || exit 3
+if ! git -C "$WT" apply "$P"; then git -C /repo worktree remove --force "$WT"; echo "patch does not apply"; exit 3; fi
+if [ "$4" != "notest" ]; then (cd "$WT" && /venv/bin/python -m pytest -q -p no:cacheprovider tests 2>&1 | grep -E "passed|failed" | tail -1); fi
+(cd /verif && LUNA_VERIF_REPO="$WT" ./check $ID --tier $TIER > /tmp/try_patch_$$.out 2>&1; echo "check rc=$?"; grep -E "VIOLATION|KNOWN-FINDING|MACHINERY|violated rule" /tmp/try_patch_$$.out | cut -c1-300 | head -6; rm -f /tmp/try_patch_$$.out)
+git -C /repo worktree remove --force "$WT"
